@@ -596,6 +596,13 @@ def apply_season(model, name, cls, op, node):
     elif k == 'enum_lower':
         if node.is_scalar(str):
             node.set_value(str(node.get_value()).lower())
+    elif k == 'attrs_to_seq':
+        # the object is written as the sequence of its attribute values
+        if node.is_mapping():
+            yn = node.yaml_node
+            node.yaml_node = yaml.SequenceNode(
+                'tag:yaml.org,2002:seq', [v for _, v in yn.value],
+                yn.start_mark, yn.end_mark)
     elif k == 'set_scalar':
         # the object is written as one fixed scalar (op[1]: an encoded
         # str/int/float/bool/None)
